@@ -230,13 +230,29 @@ func runC15(c *Ctx) {
 			ok := TopFunc(w.Fn) == del
 			if ok {
 				ins := false
+				var insInstr ssa.Instruction
 				for _, w2 := range FieldWrites([]*ssa.Function{del}, deleted) {
 					if w2.Kind == "mapupdate" {
 						ins = true
+						insInstr = w2.Instr
 					}
 				}
 				el := LockAtEntry(del)
 				ok = ins && el != nil && el.Deferred
+				if !ok && ins && el != nil {
+					// explicit Unlock instead of defer: one acquisition of the lock in the function,
+					// and both the delete and the insert are made with it held (lockset analysis)
+					la := NewLockAnalysis()
+					la.Analyze(del)
+					key := LockKey{Obj: el.Field}
+					nLock := 0
+					for _, ci := range CallsIn(del) {
+						if o := CalleeObj(ci.Common()); o != nil && (o.Name() == "Lock") && o.Pkg() != nil && o.Pkg().Path() == "sync" {
+							nLock++
+						}
+					}
+					ok = nLock == 1 && la.Must(w.Instr)[key] && la.Must(insInstr)[key]
+				}
 			}
 			c.Check(ok, "C15.4-grow-only", FuncName(w.Fn)+"|delete(queued)", p.Pos(InstrPos(w.Instr)), "an id leaves the queued set only in Delete, which inserts it into the deleted set in the same critical section")
 		}
